@@ -28,10 +28,12 @@ def py_of(v):
         return datetime.timedelta(microseconds=v[1])
     if k == "dt":
         aware, us, tz = v[1], v[2], v[3]
-        d = EPOCH + datetime.timedelta(microseconds=us)
+        # via the local wall time: near datetime.min / datetime.max the instant itself (us, in UTC) may lie outside
+        # the years 1..9999 while the local time in a zone with an offset is representable
+        local = datetime.datetime(1970, 1, 1) + datetime.timedelta(microseconds=us + tz * 60 * 10**6)
         if not aware:
-            return d.replace(tzinfo=None)
-        return d.astimezone(datetime.timezone(datetime.timedelta(minutes=tz)))
+            return local
+        return local.replace(tzinfo=datetime.timezone(datetime.timedelta(minutes=tz)))
     raise ValueError(v)
 
 
@@ -139,8 +141,18 @@ def run(ctx):
         if 86400000000 < u < DT_MAX - 86400000000:
             vals.append(("dt", True, u, r.choice([60, -300, 330, 765])))
             vals.append(("dt", False, u, 0))
+    # aware datetimes whose LOCAL time is at the ends of the datetime range in zones with an offset: the instant is
+    # before year 1 (positive offset at datetime.min: not a member) or after year 9999 (negative offset at
+    # datetime.max: a member by the documented domain, non-negative whole-millisecond instant)
+    LOCAL_MIN = (datetime.datetime.min - datetime.datetime(1970, 1, 1)) // US
+    LOCAL_MAX = (datetime.datetime.max - datetime.datetime(1970, 1, 1)) // US
+    for tzm in (60, 765, -300, -720, 1):
+        for local_us in (LOCAL_MIN, LOCAL_MIN + 1000, LOCAL_MIN + 3 * 3600 * 10**6, LOCAL_MAX, LOCAL_MAX - 999, LOCAL_MAX - 999999,
+                         LOCAL_MAX - 3 * 3600 * 10**6 - 999):
+            vals.append(("dt", True, local_us - tzm * 60 * 10**6, tzm))
     cases = []
     prop_bad = []
+    known_hits = []
     WRITERS = {"i8": ("write_int8", "read_int8"), "i16": ("write_int16", "read_int16"), "i32": ("write_int32", "read_int32"),
                "i64": ("write_int64", "read_int64"), "u8": ("write_uint8", "read_uint8"), "u16": ("write_uint16", "read_uint16"),
                "u32": ("write_uint32", "read_uint32"), "u64": ("write_uint64", "read_uint64"), "f64": ("write_float64", "read_float64"),
@@ -183,6 +195,12 @@ def run(ctx):
                     getattr(writers, wn)(buf, py)
                     back = getattr(readers, rn)(io.BytesIO(buf.getvalue()))
                 except Exception as e:  # noqa
+                    if (name == "TZAware" and v[0] == "dt" and v[2] > DT_MAX and buf.getvalue()
+                            and int.from_bytes(buf.getvalue(), "big", signed=True) == v[2] // 1000
+                            and isinstance(e, (OverflowError, ValueError))):
+                        # recorded finding: written correctly, but the reader cannot build a UTC datetime beyond year 9999
+                        known_hits.append(repr(py)[:80])
+                        continue
                     prop_bad.append({"type": name, "value": repr(py)[:80], "what": f"member not written/read: {cc.err_name(e)}"})
                     continue
                 if name.endswith("Timedelta"):
@@ -195,6 +213,16 @@ def run(ctx):
                 same = back == expect and (name != "f64" or struct.pack(">d", back) == struct.pack(">d", py))
                 if not same:
                     prop_bad.append({"type": name, "value": repr(py)[:80], "what": f"member read back as {back!r}"[:160]})
+    # membership must not depend on the process's local time zone
+    from .. import tzprobe
+    tz_ops = []
+    for v in vals:
+        if v[0] == "dt" and (abs(v[2]) < 10**7 or v[2] > DT_MAX - 10**10 or len(tz_ops) < 60):
+            tz_ops.append(["isinst", "TZAware", v[2], v[3], v[1]]); tz_ops.append(["isinst", "TZAwareMicros", v[2], v[3], v[1]])
+    tz_ops = tz_ops[:160]
+    tz_diff = tzprobe.differing(tz_ops, zones=tzprobe.ZONES[:3])
+    for dd in tz_diff[:3]:
+        prop_bad.append({"type": dd["operation"][1], "value": str(dd["operation"][2:]), "what": "membership depends on the process's local time zone (TZ)", **dd})
     # nesting on the implementation
     chain_i = [P.i8, P.i16, P.i32, P.i64]
     chain_u = [P.u8, P.u16, P.u32, P.u64]
@@ -237,4 +265,16 @@ def run(ctx):
         "instance_theorem": "c12_shipped : c12_ok shipped = true  [vm_compute]",
         "property_failures_on_implementation": len(prop_bad), "correspondence_disagreements": len(failing),
     }
-    return {"instance_obligations": 1, "instance_discharged": res["instance_discharged"], "violations": viol, "coverage": cov}
+    known = []
+    KNOWN_ID = "C12-timestamp-beyond-utc-max"
+    if known_hits:
+        kf = {f["id"]: f for f in common.known_findings()["findings"]}
+        if KNOWN_ID in kf:
+            known.append(f"KNOWN-FINDING: property=C12 {kf[KNOWN_ID]['what']} ({len(known_hits)} values, e.g. {known_hits[0]})")
+        else:
+            viol.append({"kind": "property", "what": "a member of TZAware is written but cannot be read back", "failing_input_found": True,
+                         "n_failing": len(known_hits), "cases": [{"type": "TZAware", "value": x} for x in known_hits[:3]]})
+    cov["known_finding_hits"] = len(known_hits)
+    cov["time_zone_probe"] = {"operations": len(tz_ops), "differences": len(tz_diff)}
+    return {"instance_obligations": 1, "instance_discharged": res["instance_discharged"], "violations": viol, "coverage": cov,
+            "known": known}
